@@ -131,10 +131,39 @@ class Module:
             decorators=[_dec_name(d) for d in node.decorator_list],
         )
 
+    def _segments(self, fi: FunctionInfo):
+        """Mechanically extracted code segments of a function: `<qualname>#with<k>` is the body of the k-th
+        `with` / `async with` statement (source order, nested defs excluded) as a function of the same parameters.
+        Used for generator-based context managers, whose atomic sections (no await inside) are the units a contract
+        can be stated on.  Dropped by the extraction: the with-item itself (acquiring / releasing the lock) and
+        everything outside the block."""
+        k = 0
+        stack = list(reversed(fi.node.body))
+        withs = []
+        while stack:
+            n = stack.pop()
+            if isinstance(n, (ast.FunctionDef, ast.AsyncFunctionDef, ast.ClassDef, ast.Lambda)):
+                continue
+            if isinstance(n, (ast.With, ast.AsyncWith)):
+                withs.append(n)
+            stack.extend(reversed(list(ast.iter_child_nodes(n))))
+        withs.sort(key=lambda n: (n.lineno, n.col_offset))
+        for w_ in withs:
+            k += 1
+            seg = ast.FunctionDef(name=f"{fi.node.name}#with{k}", args=fi.node.args, body=list(w_.body),
+                                  decorator_list=[], returns=None, type_comment=None, type_params=[],
+                                  lineno=w_.lineno, col_offset=w_.col_offset,
+                                  end_lineno=w_.end_lineno, end_col_offset=w_.end_col_offset)
+            qn = f"{fi.qualname}#with{k}"
+            self.functions[qn] = FunctionInfo(
+                module=self.name, qualname=qn, node=seg, source=fi.source, sha256=fi.sha256, lineno=w_.lineno,
+                cls=fi.cls, decorators=[])
+
     def _scan(self, body):
         for st in body:
             if isinstance(st, (ast.FunctionDef, ast.AsyncFunctionDef)):
                 self.functions[st.name] = self._fn(st)
+                self._segments(self.functions[st.name])
             elif isinstance(st, ast.ClassDef):
                 self._scan_class(st)
             elif isinstance(st, ast.Assign) and len(st.targets) == 1 and isinstance(st.targets[0], ast.Name):
@@ -203,6 +232,7 @@ class Module:
                 fi = self._fn(st, cls=node.name)
                 methods[st.name] = fi
                 self.functions[fi.qualname] = fi
+                self._segments(fi)
         self.classes[node.name] = ClassInfo(
             module=self.name, name=node.name, node=node, bases=bases, kind=kind,
             frozen=frozen, fields=fields, methods=methods, enum_members=enum_members,
